@@ -16,7 +16,7 @@ from vp.names import K
 from vp.oracles_ac import World, to_qs
 from vp.snapshot import capacity
 
-VERSIONS = ('1.39', '1.36', '1.34', '1.29', '1.27', '1.17', '1.12', '1.10')
+VERSIONS = ('1.39', '1.36', '1.34', '1.29', '1.27', '1.26', '1.25', '1.17', '1.12', '1.10')
 FRESH = K(77)
 
 
@@ -142,6 +142,11 @@ class Worker(EnumWorker):
                         if set(res) != set(have):
                             viol.append(('summary-classes', 'summary of %s lists %s, inventory has '
                                          '%s' % (p[-2:], sorted(res), sorted(have))))
+                    elif set(res) != set(have) & set(want_total):
+                        # below 1.27 a summary shows the requested classes (of all groups) only
+                        viol.append(('summary-classes', 'summary of %s lists %s; its inventory '
+                                     'has %s and the request asks for %s' % (
+                                         p[-2:], sorted(res), sorted(have), sorted(want_total))))
                     for rc, x in res.items():
                         if rc not in have:
                             viol.append(('summary-classes', 'summary of %s lists %s without '
